@@ -23,6 +23,7 @@ import (
 	"math/big"
 	"sort"
 	"strings"
+	"time"
 
 	"golang.org/x/tools/go/ssa"
 )
@@ -112,7 +113,11 @@ type pxHooks struct {
 	prune func(fr *pxFrame, b *ssa.BasicBlock, st *pxState) bool
 }
 
+// pxWallBudget: the longest one exploration may run.
+const pxWallBudget = 90 * time.Second
+
 type PX struct {
+	started   time.Time
 	w         *World
 	hooks     pxHooks
 	f         *Flow // evaluator with a term hook
@@ -604,6 +609,16 @@ func (p *PX) block(fr *pxFrame, b *ssa.BasicBlock, pred *ssa.BasicBlock, st *pxS
 	if *st.steps > p.maxSteps || p.paths > p.maxPaths {
 		p.Truncated = true
 		return
+	}
+	// wall-clock safety net: an exploration that does not end (a decided loop
+	// unrolled with an ever larger state) gives "truncated", never a hang
+	if *st.steps&255 == 0 {
+		if p.started.IsZero() {
+			p.started = time.Now()
+		} else if time.Since(p.started) > pxWallBudget {
+			p.Truncated = true
+			return
+		}
 	}
 	if p.hooks.prune != nil && p.hooks.prune(fr, b, st) {
 		return
